@@ -444,6 +444,22 @@ func propC20(j *Job) {
 			}
 		}
 	}
+	// OpenStream in the instant the reader sees end-of-stream, against the read loop that is
+	// performing the reset (scenario of C14), and a teardown against a blocking write made from the
+	// low-threshold callback (scenario of C09)
+	{
+		mode := modes[0]
+		P := int(maxPayloadSizeForMTU(100, !mode.A.NoInterleave))
+		sp := &resetSpec{A: withBase(mode.A, 100, 0xFFFFFFFA, 4000), B: withBase(mode.B, 100, 0xFFFFFFF0, 4000),
+			SIDs: []uint16{5}, Sizes: []int{9}, Cycles: 3, SSNStart: 65534, MIDStart: 0xFFFFFFFE, BackSizes: []int{12}, ReopenAtEOF: true}
+		_ = P
+		j.Explore(fmt.Sprintf("RE/%s/reopen-at-eof", mode.Name), resetScenario(sp), Budget{D: 1}, nil)
+		a, b := withBase(mode.A, 228, 9, 4000), withBase(mode.B, 228, 99, 4000)
+		a.BlockWrite = true
+		for _, x := range []string{"closeA", "abortA"} {
+			j.Explore(fmt.Sprintf("CW/%s/%s", mode.Name, x), callbackWriterScenario(a, b, x), Budget{}, nil)
+		}
+	}
 	// a writer blocked in blocking-write mode (peer window closed) against concurrent teardown,
 	// with lock releases as additional preemption points
 	for mi, mode := range modes {
